@@ -23,7 +23,8 @@ DEFAULT_LEG = "sim"
 RULE = ("each run draws an operation (kernel level: add, scale, mul, diff, poisson, integrate, evaluate; list level: multiply, power, "
         "poisson_bracket, differentiate, jacobian, integrate, evaluate, add_inplace, substitute_linear, substitute_affine), degrees, "
         "real/complex dtype, a coefficient class (small ints, ints up to 2^22, dyadic rationals, generic floats) and a sparsity pattern "
-        "biased towards colliding output slots; the COMPILED function's result is compared with an exact Gaussian-rational model, and "
+        "biased towards colliding output slots (evaluation points mix generic, zero, real and unit coordinates and may be scaled as a whole "
+        "to 1e-16 / 1e-20 / 3e-9); the COMPILED function's result is compared with an exact Gaussian-rational model, and "
         "every function that is or reaches a parallel kernel is re-executed from its own Python source inside the prange simulator "
         "under a drawn thread count (1..16), iteration partition (static / chunked / arbitrary) and scheduling policy (conflict-directed "
         "rmw, random run lengths, PCT, permutation, round-robin, reverse, serial), and must again equal the model bit for bit (exact "
